@@ -330,6 +330,56 @@ def run_chain(run, cfg, G):
                        "observation = write boundaries, stream items, frames still receivable; non-trivial = items yielded / stream ended / pending seen; distinct = distinct case lines")
 
 
+# ------------------------------------------------------------------------------------ server (C08, C09, C10, C18)
+
+def srv_nontrivial(inp, impl):
+    ks = []
+    d = inp.split(" E ")[0]
+    nconn = d.count(":g:") + d.count(":b:")
+    if nconn >= 2:
+        ks.append("multi-connection")
+    if ":b:" in d:
+        ks.append("faulty-connection")
+    if ",s" in d or ":s" in d:
+        ks.append("streaming-call")
+    if ",E" in d or ":E" in d or ",F" in d or ":F" in d:
+        ks.append("oneway-call")
+    if "g" in d.replace(":g:", ":"):
+        ks.append("undecodable-call")
+    if " r" in inp or " x" in inp:
+        ks.append("close-or-read-error")
+    if ":1" in impl:
+        ks.append("stream-items-delivered")
+    if "V" in impl or "E" in impl:
+        ks.append("replies-delivered")
+    return ks
+
+
+def run_srv_scenarios(names):
+    def run(run_, cfg, G):
+        for nm in names:
+            diff_run(run_, G, [nm], "srv", srv_nontrivial, nm)
+        def search():
+            for nm in names:
+                diff_run(run_, G, [nm], "srv", srv_nontrivial, nm + "-search", tier="thorough", seed_offset=1, record=False)
+                if any(v[2] == "" for v in run_.violations):
+                    return
+        finish_corr(run_, G, [search])
+        run_.cov["rule"] = ("the real Server::run future polled by a manual executor with a scripted listener, scripted sockets and a recording test service "
+                            "(echo / error / stream of n items / undecodable call, each possibly oneway); 1..5 connections x scripts of 0..6 (flooders: 0..12) pipelined calls x random interleavings of connection arrival, byte "
+                            "arrival split at arbitrary positions, close, server polls; fault scenarios add truncated frame + EOF, EOF mid-burst, read error, write failure at the k-th write; every schedule ends with everything "
+                            "delivered and the server polled to idleness; observation = per-connection output frames, global service-invocation order, server future still pending; "
+                            "non-trivial = several connections / faults / streams / oneway / replies delivered; distinct = distinct case lines")
+    return run
+
+
+SRV_ASSUME = [
+    "the service is the fixed family the harness implements (echo / error / stream of n always-ready items / undecodable call); answers depend on the call only (per-call deterministic service)",
+    "futures_util::select_biased!, fuse and StreamExt::next poll in the documented order (branch order; first ready wins); accept errors are not among the modelled events",
+    "well-behaved connection = whole frames, close only after everything was sent, writable transport, whole per-connection stream below MAX_BUFFER_SIZE; nothing is assumed about other connections",
+    "liveness (every delivered call is eventually answered) is checked by the oracle at the end of each schedule (after final polls), not yet a theorem; the theorems are safety/refinement statements for every prefix",
+]
+
 RX_ASSUME = [
     "which bytes are a JSON document of the requested shape is serde_json/serde's business: the model takes `decode this frame` as an opaque per-frame function (theorems hold for every such function); the harness instantiates it with the verdict of a fresh connection receiving that frame alone and cross-checks call receivers against serde_json::from_slice",
     "the ReadHalf contract: a read future that is dropped while pending has consumed nothing",
@@ -361,6 +411,24 @@ PROPS = {
             "Serialize implementations announce honest length hints (a sequence that announces Some(0) and then emits elements is malformed in serde_json and zlink alike); WF is an explicit decidable predicate",
             "valid UTF-8 of the output is checked on every explored value by the oracle (Utf8.valid), not yet proved as a theorem (C03_valid_utf8 is the stated gap)",
         ],
+    },
+    "C08": {
+        "property_modules": ["Zlink.Properties.C08"], "lean_modules": ["Zlink.Properties.C08"],
+        "theorems": ["C08.C08_refinement", "C08.C08_oneway_silent", "C08.C08_one_reply", "C08.C08_in_order"],
+        "run": run_srv_scenarios(["srv"]), "trusted_base": TB_COMMON, "assumptions": SRV_ASSUME,
+    },
+    "C09": {
+        "property_modules": ["Zlink.Properties.C09"], "lean_modules": ["Zlink.Properties.C09"],
+        "theorems": ["C09.C09_noninterference", "C09.C09_faults_unconstrained", "C09.C09_bad_connect_unconstrained",
+                     "C09.C09_write_failure_local", "C09.C09_server_alive"],
+        "run": run_srv_scenarios(["srv-faults"]), "trusted_base": TB_COMMON, "assumptions": SRV_ASSUME,
+    },
+    "C10": {
+        "property_modules": ["Zlink.Properties.C10"], "lean_modules": ["Zlink.Properties.C10"],
+        "theorems": ["C10.C10_stream_order", "C10.C10_items", "C10.C10_resume", "C10.C10_others_served",
+                     "C10.C10_unwritable_drops_only_subscription"],
+        "run": run_srv_scenarios(["srv-stream"]), "trusted_base": TB_COMMON,
+        "assumptions": SRV_ASSUME + ["stream items are always ready in the model and the harness (futures stream::iter); item production as a separate environment event is not modelled yet"],
     },
     "C17": {
         "property_modules": ["Zlink.Properties.C17"],
